@@ -110,7 +110,8 @@ fn main() {
             let seed: u64 = args.get(3).and_then(|s| s.parse().ok()).unwrap_or(1);
             let outdir = args.get(4).map(|s| s.as_str()).unwrap_or("work");
             let si: usize = args.get(5).and_then(|s| s.parse().ok()).unwrap_or(0);
-            props::stream::job_c15_shape_child(outdir, tier, seed, si);
+            let stack_only = args.get(6).map(|s| s == "stack").unwrap_or(false);
+            props::stream::job_c15_shape_child(outdir, tier, seed, si, stack_only);
         }
         Some("gen") => {
             // lh gen <job> <tier> <seed> <outdir>
